@@ -445,7 +445,16 @@ func runDirCase(dc *DirCase, tr *Tr) error {
 	}
 	dw, err := walkDir(st, root, dc.Universe)
 	if err != nil {
-		return err
+		if dc.Builder == "raw" {
+			return err
+		}
+		// the independent walker cannot read what a builder stored: that is itself a finding about the
+		// stored directory (not a harness fault), recorded as an unwalkable directory
+		tr.Emit(M{"ev": "reset", "case": caseString(dc)})
+		tr.Emit(M{"ev": "dir", "kind": "unwalkable", "F": dc.Fanout, "S": []WShard{}, "plain": []WPlain{}, "expect": [][]int{},
+			"digits": [][]int{}, "missing": []int{}, "entryC": []int{}, "mode": dc.Mode, "size": size, "builder": dc.Builder,
+			"rootC": 0, "nuniv": len(dc.Universe), "walkErr": err.Error()})
+		return nil
 	}
 	entryC := []int{}
 	for _, t := range targets {
@@ -703,6 +712,9 @@ func runDirCase(dc *DirCase, tr *Tr) error {
 			}
 			loads, failed := st.TakeLoads()
 			tr.Emit(M{"ev": "length", "n": n, "res": res, "e": res, "loads": classes(dw, loads), "failed": classes(dw, failed)})
+		case "heal":
+			st.ClearFaults()
+			tr.Emit(M{"ev": "heal"})
 		case "reopen":
 			openNode()
 		default:
